@@ -1,9 +1,179 @@
 import UvModel.DriverUtil
-/-! line-protocol driver modes for C10 (stub: no modes yet) -/
+import UvModel.Udp
+/-! line-protocol driver modes for C10: `c10v` (unit: uv__udp_sendmsgv; other side harness/c10_unit.c) and
+`c10` (whole library; other side harness/c10_sim.c) -/
 namespace Drivers.C10
-open UvModel.DriverUtil
+open UvModel.DriverUtil UvModel.Udp
+
+def parseSOut (w : String) : Option SOut :=
+  if w.startsWith "k" then (w.drop 1).toNat?.map .sent
+  else if w.startsWith "e" then (w.drop 1).toNat?.map .err
+  else none
+
+def parseAll {α β} (f : α → Option β) (l : List α) : Option (List β) := l.mapM f
+
+def joinNat (l : List Nat) : String := ",".intercalate (l.map toString)
+
+/-! ### mode c10v -/
+def unitDgrams (count shape : Nat) : List Dgram :=
+  (List.range count).map fun i => ⟨i, List.replicate (1 + (i + shape) % 3) 1, (i * (shape + 1)) % 3⟩
+
+def showCall (c : KCall) : String :=
+  let ds := " ".intercalate (c.offered.map fun d => s!"{d.seq}:{d.bufs.length}:{d.dest}")
+  s!"call {if c.mmsg then "mmsg" else "msg"} [{ds}] {c.res}"
+
+def unitStep (_ : Unit) : List String → Unit × List String
+  | "v" :: count :: shape :: outs =>
+    match parseAll parseSOut outs with
+    | some os =>
+      let v := sendmsgv (unitDgrams (nat! count) (nat! shape)) os
+      ((), v.log.map showCall ++ [s!"ret {v.ret} left={v.outs.length}"])
+    | none => ((), ["bad-op"])
+  | [] => ((), [])
+  | _ => ((), ["bad-op"])
+
+/-! ### mode c10 -/
+structure Sock where
+  h : H := {}
+  q : List RItem := []
+  fam : Nat := 4
+  script : List (CbKind × Nat × List Op) := []
+
+structure St where
+  socks : Array Sock := #[]
+
+def parseLens (w : String) : Option (List Nat) :=
+  if w = "-" then some [] else (w.splitOn ",").mapM (·.toNat?)
+
+def parseOp (w : String) : Option Op :=
+  match w.splitOn ":" with
+  | ["send", dest, en, lens] => do some (.send (← parseLens lens) (← dest.toNat?) ((← en.toNat?) != 0))
+  | ["try", dest, lens] => do some (.trySend (← parseLens lens) (← dest.toNat?))
+  | ["try2", count, dest, lens] => do some (.trySend2 (← count.toNat?) (← parseLens lens) (← dest.toNat?))
+  | ["rstart"] => some .recvStart
+  | ["rstop"] => some .recvStop
+  | ["close"] => some .close
+  | _ => none
+
+def parseRItem (w : String) : Option RItem :=
+  if w = "b" then some .brk
+  else if w.startsWith "e" then (w.drop 1).toNat?.map .err
+  else if w.startsWith "d" then
+    match (w.drop 1).toString.splitOn ":" with
+    | [len, t, p] => do some (.dg ⟨← len.toNat?, (← t.toNat?) != 0, ← p.toNat?⟩)
+    | _ => none
+  else none
+
+def hid (w : String) : Option Nat := if w.startsWith "h" then (w.drop 1).toNat? else none
+
+def scriptOf (k : Sock) : Script := fun kind n =>
+  ((k.script.find? fun e => e.1 = kind ∧ e.2.1 = n).map (·.2.2)).getD []
+
+def showBuf : Option BufRef → String
+  | none => "-"
+  | some b => s!"a{b.a}+{b.off}/{b.len}"
+
+def showEv (i : Nat) : Ev → String
+  | .ret r => s!"h{i} ret {r}"
+  | .skipped => s!"h{i} skipped"
+  | .sendCb q st => s!"h{i} cb send r{q} {st}"
+  | .alloc k len => s!"h{i} alloc a{k} {len}"
+  | .recvCb n b p f => s!"h{i} cb recv {n} {showBuf b} {p} {f}"
+  | .closeCb => s!"h{i} cb close"
+
+def showWire (i fam : Nat) (ds : List Dgram) : List String :=
+  if ds.isEmpty then [] else
+  [s!"wire h{i}" ++ String.join (ds.map fun d =>
+      let n := d.bytes
+      let f := if d.dest = 0 then fam else if d.dest = 1 then 4 else 6
+      (if n = 0 then s!" ?/0@{f}" else s!" {d.seq}/{n}@{f}"))]
+
+/-- lines produced by handle i going from state a to state b -/
+def delta (i : Nat) (fam : Nat) (a b : H) : List String :=
+  (b.trace.drop a.trace.length).map (showEv i) ++ showWire i fam (b.wire.drop a.wire.length)
+
+def obs (st : St) : String :=
+  let reqs := st.socks.foldl (fun acc k => acc + k.h.activeReqs) (0 : Int)
+  let per := (List.range st.socks.size).map fun i =>
+    let h := (st.socks.getD i {}).h
+    s!" h{i}:q={h.sqSize}/{h.sqCount}:a={if h.active then 1 else 0}"
+  s!"obs reqs={reqs}" ++ String.join per
+
+/-- is `dest` usable on a handle of family fam (generator keeps families matched) -/
+def destOk (fam dest : Nat) : Bool := dest = 0 || dest ≥ 3 || (dest = 1 && fam = 4) || (dest = 2 && fam = 6)
+
+def totOk (b : List Nat) : Bool := b.length ≤ 64 && (b.sum = 0 || (b.sum ≥ 6 && b.sum ≤ 60000))
+
+def opDestOk (fam : Nat) : Op → Bool
+  | .send b d _ => destOk fam d && !b.isEmpty && totOk b
+  | .trySend b d => destOk fam d && totOk b
+  | .trySend2 c b d => destOk fam d && d ≤ 2 && totOk b && c ≤ 4096
+  | _ => true
+
+def simStep (st : St) : List String → St × List String
+  | ["new", h, fam, conn, mm] =>
+    match hid h with
+    | some i =>
+      if i ≠ st.socks.size ∨ (fam ≠ "4" ∧ fam ≠ "6") then (st, ["bad-op"]) else
+      let k : Sock := { h := { connected := conn = "1", mmsg := mm = "1" }, fam := nat! fam }
+      let st := { st with socks := st.socks.push k }
+      (st, [s!"new h{i} 0", obs st])
+    | none => (st, ["bad-op"])
+  | "sout" :: h :: toks =>
+    match hid h, parseAll parseSOut toks with
+    | some i, some os =>
+      if i < st.socks.size then
+        ({ st with socks := st.socks.modify i fun k => { k with h := { k.h with souts := k.h.souts ++ os } } }, [])
+      else (st, ["bad-op"])
+    | _, _ => (st, ["bad-op"])
+  | "rin" :: h :: toks =>
+    match hid h, parseAll parseRItem toks with
+    | some i, some is =>
+      if i < st.socks.size then
+        ({ st with socks := st.socks.modify i fun k => { k with q := k.q ++ is } }, [])
+      else (st, ["bad-op"])
+    | _, _ => (st, ["bad-op"])
+  | "alloc" :: h :: toks =>
+    match hid h, parseAll String.toNat? toks with
+    | some i, some sz =>
+      if i < st.socks.size then
+        ({ st with socks := st.socks.modify i fun k => { k with h := { k.h with allocSizes := sz } } }, [])
+      else (st, ["bad-op"])
+    | _, _ => (st, ["bad-op"])
+  | "script" :: h :: kind :: n :: toks =>
+    match hid h, parseAll parseOp toks, n.toNat? with
+    | some i, some ops, some n =>
+      if i < st.socks.size ∧ (kind = "send" ∨ kind = "recv") then
+        let kd := if kind = "send" then CbKind.send else CbKind.recv
+        let fam := (st.socks.getD i {}).fam
+        if ops.all (opDestOk fam) then
+          ({ st with socks := st.socks.modify i fun k => { k with script := (kd, n, ops) :: k.script } }, [])
+        else (st, ["bad-op"])
+      else (st, ["bad-op"])
+    | _, _, _ => (st, ["bad-op"])
+  | ["op", h, tok] =>
+    match hid h, parseOp tok with
+    | some i, some op =>
+      if i < st.socks.size then
+        let k := st.socks.getD i {}
+        if !opDestOk k.fam op then (st, ["bad-op"]) else
+        let h' := applyOp k.h op
+        let st := { st with socks := st.socks.set! i { k with h := h' } }
+        (st, delta i k.fam k.h h' ++ [obs st])
+      else (st, ["bad-op"])
+    | _, _ => (st, ["bad-op"])
+  | ["run"] =>
+    let (st, out) := (List.range st.socks.size).foldl (fun (acc : St × List String) i =>
+      let k := acc.1.socks.getD i {}
+      let (h', q', spun) := uvRun (scriptOf k) k.h k.q
+      ({ acc.1 with socks := acc.1.socks.set! i { k with h := h', q := q' } },
+       acc.2 ++ delta i k.fam k.h h' ++ (if spun then [s!"h{i} spun"] else []))) (st, [])
+    (st, out ++ ["ran", obs st])
+  | [] => (st, [])
+  | _ => (st, ["bad-op"])
 
 /-- (mode name, action).  `uvdriver <mode>` runs the action (normally `runLines init step`). -/
-def modes : List (String × IO Unit) := []
+def modes : List (String × IO Unit) :=
+  [("c10v", runLines () unitStep), ("c10", runLines ({} : St) simStep)]
 
 end Drivers.C10
